@@ -1,9 +1,35 @@
 #!/usr/bin/env python3
-import json, sys, glob
+"""validate MANIFEST.json and every evidence file: schema, and for proof-level records that the run was a
+quiet one (discharged == obligations, no violations, nothing undecided) — a record written by a failing or
+scratch-copy run must not be committed."""
+import json, sys, glob, os
 import jsonschema
 jsonschema.validate(json.load(open('/verif/MANIFEST.json')), json.load(open('/root/.vp/MANIFEST.schema.json')))
 print('manifest valid')
 sch = json.load(open('/root/.vp/EVIDENCE.schema.json'))
+claimed = {c['property_id'] for c in json.load(open('/verif/MANIFEST.json'))['checks']}
+bad = 0
+have = set()
 for f in sorted(glob.glob('/verif/evidence/*.json')):
-    jsonschema.validate(json.load(open(f)), sch)
-    print('evidence valid', f)
+    e = json.load(open(f))
+    jsonschema.validate(e, sch)
+    c = e['coverage']
+    have.add(e['property_id'])
+    probs = []
+    if os.path.basename(f) != e['property_id'] + '.json':
+        probs.append('file name != property_id')
+    if e['level'] == 'proof' and c.get('obligations') != c.get('discharged'):
+        probs.append(f"discharged ({c.get('discharged')}) != obligations ({c.get('obligations')})")
+    if e.get('violations'):
+        probs.append(f"violations={e['violations']}")
+    if c.get('undecided'):
+        probs.append(f"undecided={c['undecided']}")
+    if probs:
+        bad += 1
+        print('evidence NOT a quiet record', f, '; '.join(probs))
+    else:
+        print('evidence valid', f)
+for p in sorted(claimed - have):
+    bad += 1
+    print('evidence missing for claimed property', p)
+sys.exit(1 if bad else 0)
